@@ -13,8 +13,8 @@ B. *metamorphic twins* — generated scripts over every supported statement kind
    relation `Fs.Fold.CaseEq`), run on twin fresh instances, and the complete outcomes must be equal: rows, description
    (names and types), rowcount, status text, sqlstate, conn.database/conn.schema, or error class + errno + sqlstate.
 
-MERGE `THEN` keywords are rendered in upper case only (C02/merge-delete-lowercase is being repaired in /repo by the
-coordinator; `finding_C02_merge_delete_lowercase` is its witness) — everything else in a MERGE is re-spelled.
+MERGE clauses (incl. the THEN keywords, repaired in /repo by 9db44bc) are re-spelled like everything else; the driver's
+`fold then` ties `thenIsDelete` to a lower-case `then delete` run.
 """
 from __future__ import annotations
 
@@ -211,11 +211,10 @@ class Script:
             lambda: [k("select"), k("nope_col"), k("from"), t0],
             lambda: [k("select"), x("*"), k("from"), k("nope_table")],
             lambda: [k("select"), a, k("from"), t0, k("sample"), x("(50)"), k("seed"), x("(7)"), k("order by"), a],
-            # MERGE: THEN keywords fixed upper-case ('K'), everything else re-spelled
             lambda: [k("merge into"), t0, k("using"), t1, k("on"), t0, x("."), a, x("="), t1, x("."), a,
-                     k("when matched"), ("K", "THEN UPDATE SET"), t0, x("."), b, x("="), t1, x("."), b,
-                     k("when not matched"), ("K", "THEN INSERT"), x("("), a, x(","), b, x(")"), ("K", "VALUES"), x("("), t1, x("."), a, x(","), t1, x("."), b, x(")")],
-            lambda: [k("merge into"), t0, k("using"), t1, k("on"), t0, x("."), a, x("="), t1, x("."), a, k("when matched"), ("K", "THEN DELETE")],
+                     k("when matched"), k("then update set"), t0, x("."), b, x("="), t1, x("."), b,
+                     k("when not matched"), k("then insert"), x("("), a, x(","), b, x(")"), k("values"), x("("), t1, x("."), a, x(","), t1, x("."), b, x(")")],
+            lambda: [k("merge into"), t0, k("using"), t1, k("on"), t0, x("."), a, x("="), t1, x("."), a, k("when matched"), k("then delete")],
         ]
         self.pool_size = len(pool)
         for _ in range(length):
@@ -396,6 +395,18 @@ def run_var() -> dict:
                 out[tag + ":unset"] = "ok"
             except Exception as e:
                 out[tag + ":unset"] = "err:" + type(e).__name__
+        try:
+            cur = conn.cursor()
+            cur.execute("create table mt (a int)")
+            cur.execute("create table ms (a int)")
+            cur.execute("insert into mt values (1), (2)")
+            cur.execute("insert into ms values (2)")
+            cur.execute("merge into mt using ms on mt.a = ms.a when matched then delete")
+            cur.fetchall()
+            cur.execute("select a from mt")
+            out["merge:then delete"] = [r[0] for r in cur.fetchall()]
+        except Exception as e:
+            out["merge:then delete"] = "err:" + type(e).__name__
     return out
 
 
@@ -499,6 +510,11 @@ def _check_ci(chk, case, real, reply) -> None:
 def _check_var(chk, case, real, reply) -> None:
     chk.case(("var",), nontrivial=False)
     same_key = reply["set"] == reply["unset"]   # model: key of SET "VAR2" vs key of UNSET var2
+    then_reply = common.batch(["fold\tthen\t" + enc_str("delete")])[0]
+    if then_reply.get("delete") != "1" or real.get("merge:then delete") != [1]:
+        chk.violation(f"`merge … when matched then delete` (lower case): target rows afterwards {real.get('merge:then delete')} (expected [1]); "
+                      f"model thenIsDelete('delete') = {then_reply.get('delete')}", case, broken="C02_merge_then_invariant (correspondence with thenIsDelete)")
+        return
     if real.get("unquoted:select") != 5 or real.get("unquoted:unset") != "ok":
         chk.violation(f"`set vAr1 = 5; select $VAR1; unset VAR1` -> {real}", case, broken="C02_variable_key_partial")
         return
@@ -515,8 +531,8 @@ def _check_var(chk, case, real, reply) -> None:
 
 def _cases(chk) -> list[dict]:
     rnd = random.Random(chk.seed)
-    n_twin = 130 if chk.tier == "quick" else 4000
-    n_names = 60 if chk.tier == "quick" else 1500
+    n_twin = 130 if chk.tier == "quick" else 1500
+    n_names = 60 if chk.tier == "quick" else 500
     cases = [{"kind": "ci"}, {"kind": "var"}]
     cases += [gen_names_case(rnd) for _ in range(n_names)]
     cases += [gen_twin_case(rnd) for _ in range(n_twin)]
@@ -564,7 +580,6 @@ def run(chk) -> None:
         "unquoted identifiers are ASCII [A-Za-z_][A-Za-z0-9_]* (no `$`: variable substitution is C15's) (Python's str.upper() is Unicode, the model's is ASCII) and not reserved words",
         "a quoted name is only referenced by its exact spelling, or unquoted when it is the upper-case form (DuckDB matches names case-insensitively: C02/quoted-name-matched-case-insensitively)",
         "session variable names are only re-cased, never quoted (C02/quoted-variable-name); no `$` inside identifiers (C15)",
-        "MERGE THEN keywords are rendered upper-case only (C02/merge-delete-lowercase is repaired in /repo by the coordinator)",
         "error outcomes are compared by class, errno and sqlstate, not by message text",
     ]
     chk.trusted.append("sqlglot builds the same tree for two spellings of keywords and keeps identifier text + quoted flag; DuckDB matches "
